@@ -84,6 +84,9 @@ def walk_no_nested(root):
         first = False
         yield node
         stack.extend(reversed(list(ast.iter_child_nodes(node))))
+        extra = getattr(node, '_inline_body', None)
+        if extra:
+            stack.extend(reversed(extra))
 
 
 def stmt_nodes(cfg, pred):
